@@ -58,10 +58,10 @@ def _sites(fn):
             continue
         for st in bl['stmts']:
             if st['k'] == 'assign' and st['rv']['k'] == 'agg' and 'ValidationIssue::' in st['rv']['def']:
-                out.append((st['rv']['def'].split('::')[-1], b, paths.dom_guards(fn, b, variants=False)))
+                out += [(st['rv']['def'].split('::')[-1], b, g) for g in paths.reaching_guard_sets(fn, b)]
         t = bl['term']
         if t['k'] == 'call' and callee_name(t).startswith(V + 'check_'):
-            out.append(('CALL ' + callee_name(t).split('::')[-1], b, paths.dom_guards(fn, b, variants=False)))
+            out += [('CALL ' + callee_name(t).split('::')[-1], b, g) for g in paths.reaching_guard_sets(fn, b)]
     return out
 
 
